@@ -184,6 +184,10 @@ def srSegs : List Seg :=
    .straight [([], true), ([.guard true, .read, .deferRestore], false), ([.guard false], false)],
    .loop srLoopPaths, .straight [([], true)]]
 
+/-- invariant of the scheme loop of validateSecurityRequirement for a request with body `data` -/
+def InvR (data : Bytes) (s : RSt) : Prop :=
+  s.data = some data ∧ s.deferred = true ∧ GetOK s.req data ∧ ∀ x ∈ s.seen, x = data
+
 /-! ### the three functions above: events are calls of functions of the table -/
 
 /-- state of an activation of ValidateSecurityRequirements / ValidateRequest: the request, what callbacks could read so
